@@ -66,3 +66,107 @@ Proof.
   - destruct (x mod 65536 - 65536 <? 16) eqn:E2; lia.
   - destruct (x mod 65536 <? 16) eqn:E2; lia.
 Qed.
+
+(** ---- the channel code streams of a whole block body, any number of channels and groups *)
+Lemma mine_app {A} h (a b : list (handle * A)) : mine h (a ++ b) = mine h a ++ mine h b.
+Proof. unfold mine. rewrite filter_app, map_app. reflexivity. Qed.
+
+Lemma mine_flat_map {A B} h (f : B -> list (handle * A)) (l : list B) : mine h (flat_map f l) = flat_map (fun x => mine h (f x)) l.
+Proof. induction l as [|x r IH]; [reflexivity|]. cbn [flat_map]. rewrite mine_app, IH. reflexivity. Qed.
+
+(* one row of the transposition: tags a, a+1, ... *)
+Lemma mine_row (xs : list Z) : forall (a c : nat), (a <= c < a + length xs)%nat ->
+  mine (Z.of_nat c) (combine (map Z.of_nat (seq a (length xs))) xs) = [nth (c - a) xs 0].
+Proof.
+  induction xs as [|x r IH]; intros a c Hc; cbn [length] in *; [lia|].
+  cbn [seq map combine]. unfold mine in *. cbn [filter fst].
+  destruct (Z.of_nat a =? Z.of_nat c) eqn:E.
+  - apply Z.eqb_eq in E. assert (a = c) by lia. subst c. replace (a - a)%nat with 0%nat by lia. cbn [map snd nth].
+    f_equal. (* nothing else in the rest carries tag a *)
+    clear IH. assert (H : forall (l : list Z) (b : nat), (a < b)%nat -> filter (fun p : Z * Z => fst p =? Z.of_nat a) (combine (map Z.of_nat (seq b (length l))) l) = []).
+    { induction l as [|y l IHl]; intros b Hb; [reflexivity|]. cbn [length seq map combine filter fst].
+      rewrite (proj2 (Z.eqb_neq (Z.of_nat b) (Z.of_nat a))) by lia. apply IHl. lia. }
+    rewrite (H r (S a)) by lia. reflexivity.
+  - apply Z.eqb_neq in E. assert (a <> c) by lia.
+    specialize (IH (S a) c ltac:(lia)). rewrite IH. replace (c - a)%nat with (S (c - S a)) by lia. reflexivity.
+Qed.
+
+Lemma transpose_mine (n : nat) : forall (pc : list (list Z)) (c : nat), (c < length pc)%nat ->
+  Forall (fun l => (n <= length l)%nat) pc ->
+  mine (Z.of_nat c) (transpose_codes n pc) = firstn n (nth c pc []).
+Proof.
+  induction n as [|n IH]; intros pc c Hc Hl; [reflexivity|].
+  cbn [transpose_codes]. rewrite mine_app.
+  pose proof (mine_row (map (fun l => hd 0 l) pc) 0 c) as Hr. rewrite map_length in Hr. rewrite Hr by lia.
+  rewrite IH; [| rewrite map_length; exact Hc |].
+  - replace (c - 0)%nat with c by lia.
+    assert (E1 : nth c (map (fun l => hd 0 l) pc) 0 = hd 0 (nth c pc [])) by exact (map_nth (fun l => hd 0 l) pc [] c).
+    assert (E2 : nth c (map (@tl Z) pc) [] = tl (nth c pc [])) by exact (map_nth (@tl Z) pc [] c).
+    rewrite E1, E2.
+    rewrite Forall_forall in Hl. specialize (Hl (nth c pc []) (nth_In _ _ Hc)).
+    destruct (nth c pc []) as [|x r]; cbn [length] in Hl; [lia|]. reflexivity.
+  - rewrite Forall_forall in *. intros l Hin. apply in_map_iff in Hin. destruct Hin as (l0 & <- & Hin0).
+    specialize (Hl l0 Hin0). destruct l0; cbn [length tl] in *; lia.
+Qed.
+
+Lemma skipn_skipn' {A} (b : nat) : forall (a : nat) (l : list A), skipn a (skipn b l) = skipn (b + a) l.
+Proof. induction b as [|b IH]; intros a l; [reflexivity|]. destruct l as [|x r]; [destruct a; reflexivity|]. cbn [skipn plus]. apply IH. Qed.
+
+Lemma chunks_nth (n : nat) : forall (fuel c : nat) (l : list Z), (0 < n)%nat -> (c < fuel)%nat -> (n * fuel <= length l)%nat ->
+  nth c (chunks n fuel l) [] = firstn n (skipn (n * c) l).
+Proof.
+  induction fuel as [|f IH]; intros c l Hn Hc Hl; [lia|].
+  cbn [chunks]. destruct l as [|x r] eqn:El; [cbn [length] in Hl; lia|]. rewrite <- El in *.
+  destruct c as [|c].
+  - rewrite Nat.mul_0_r. reflexivity.
+  - cbn [nth]. rewrite IH; [| exact Hn | lia | rewrite skipn_length; lia].
+    rewrite skipn_skipn'. f_equal. f_equal. lia.
+Qed.
+
+Lemma chunks_length (n : nat) : forall (fuel : nat) (l : list Z), (0 < n)%nat -> (n * fuel <= length l)%nat -> length (chunks n fuel l) = fuel.
+Proof.
+  induction fuel as [|f IH]; intros l Hn Hl; [reflexivity|]. cbn [chunks].
+  destruct l as [|x r] eqn:El; [cbn [length] in Hl; lia|]. rewrite <- El in *. cbn [length]. f_equal. apply IH; [exact Hn|]. rewrite skipn_length. lia.
+Qed.
+
+Lemma nibbles_len bytes : length (flat_map nibbles bytes) = (2 * length bytes)%nat.
+Proof. induction bytes as [|b r IH]; [reflexivity|]. cbn [flat_map nibbles app length]. lia. Qed.
+
+(** one group of 4 * nch bytes: channel c's codes are the 8 nibbles of its own 4 bytes *)
+Lemma group_channel_stream (nch c : nat) (grp : list Z) : (c < nch)%nat -> length grp = (4 * nch)%nat ->
+  mine (Z.of_nat c) (group_codes (chunks 4 nch grp)) = flat_map nibbles (firstn 4 (skipn (4 * c) grp)).
+Proof.
+  intros Hc Hl. unfold group_codes.
+  assert (Hlen : length (chunks 4 nch grp) = nch) by (apply chunks_length; lia).
+  rewrite transpose_mine; [| rewrite map_length; lia |].
+  - assert (E : nth c (map (fun bytes => flat_map nibbles bytes) (chunks 4 nch grp)) [] = flat_map nibbles (nth c (chunks 4 nch grp) []))
+      by exact (map_nth (fun bytes => flat_map nibbles bytes) (chunks 4 nch grp) [] c).
+    rewrite E.
+    rewrite chunks_nth by lia.
+    apply firstn_all2. rewrite nibbles_len, firstn_length, skipn_length. lia.
+  - rewrite Forall_forall. intros l Hin. apply in_map_iff in Hin. destruct Hin as (bs & <- & Hin).
+    apply In_nth with (d := []) in Hin. destruct Hin as (k & Hk & <-). rewrite Hlen in Hk.
+    rewrite chunks_nth by lia. rewrite nibbles_len, firstn_length, skipn_length. lia.
+Qed.
+
+(** a whole block body made of groups: channel c's code stream is the concatenation of its own bytes' nibbles, in order *)
+Theorem body_channel_stream (nch c : nat) (groups : list (list Z)) : (c < nch)%nat -> Forall (fun g => length g = (4 * nch)%nat) groups ->
+  mine (Z.of_nat c) (flat_map (fun grp => group_codes (chunks 4 nch grp)) groups) =
+  flat_map (fun g => flat_map nibbles (firstn 4 (skipn (4 * c) g))) groups.
+Proof.
+  intros Hc Hg. rewrite mine_flat_map. induction groups as [|g r IH]; [reflexivity|].
+  inversion Hg as [|? ? Hg1 Hgr]; subst. cbn [flat_map]. rewrite (group_channel_stream nch c g Hc Hg1). f_equal. exact (IH Hgr).
+Qed.
+
+(** the body of a block is cut into exactly these groups *)
+Lemma chunks_concat (n : nat) (groups : list (list Z)) : (0 < n)%nat -> Forall (fun g => length g = n) groups ->
+  forall fuel, (length groups <= fuel)%nat -> chunks n fuel (concat groups) = groups.
+Proof.
+  intros Hn Hg. induction groups as [|g r IH]; intros fuel Hf.
+  - destruct fuel; reflexivity.
+  - inversion Hg as [|? ? Hg1 Hgr]; subst. destruct fuel as [|f]; [cbn [length] in Hf; lia|].
+    cbn [concat chunks]. destruct (g ++ concat r) as [|x t] eqn:E.
+    { destruct g; [cbn [length] in Hn; lia | discriminate]. }
+    rewrite <- E. rewrite firstn_app, firstn_all, Nat.sub_diag. cbn [firstn]. rewrite app_nil_r.
+    rewrite skipn_app, skipn_all, Nat.sub_diag. cbn [skipn app]. f_equal. apply IH; [exact Hgr | cbn [length] in Hf; lia].
+Qed.
